@@ -13,6 +13,7 @@ pub mod c14;
 pub mod c15;
 pub mod c16;
 pub mod c17;
+pub mod c18;
 pub mod selftest;
 
 use crate::report::Report;
@@ -35,6 +36,7 @@ pub fn dispatch(ctx: &Ctx, rep: &mut Report) -> bool {
         "C15" => c15::run(ctx, rep),
         "C16" => c16::run(ctx, rep),
         "C17" => c17::run(ctx, rep),
+        "C18" => c18::run(ctx, rep),
         _ => return false,
     }
     true
